@@ -10,6 +10,7 @@ import (
 	"syscall"
 	"time"
 
+	"github.com/ErdemOzgen/blackdagger/internal/agent"
 	"github.com/ErdemOzgen/blackdagger/internal/dag"
 	"github.com/ErdemOzgen/blackdagger/internal/dag/scheduler"
 	"github.com/ErdemOzgen/blackdagger/internal/zzverif/venv"
@@ -46,6 +47,11 @@ type Config struct {
 	DoneNil   bool              `json:"doneNil,omitempty"`  // Schedule(ctx, g, nil) instead of a consumed channel
 	DoneSync  bool              `json:"doneSync,omitempty"` // unbuffered done channel + consumer thread (exactly the agent's arrangement); default: buffered, drained at the end
 	Stop      bool              `json:"stop,omitempty"`     // a thread calls Scheduler.Signal(SIGTERM) at an explored instant
+	Agent     bool              `json:"agent,omitempty"`    // drive the run through a real agent.Agent (setup + scheduler + the /stop path a.signal)
+	CleanupMs int               `json:"maxCleanUpMs,omitempty"`
+	SigTerm   bool              `json:"sigterm,omitempty"` // with Agent+Stop: deliver an OS signal (a.Signal(SIGTERM)) instead of the /stop request
+	Recorded  []string          `json:"recorded,omitempty"` // retry of a recorded run: recorded status text per step (C10)
+	OutBytes  int               `json:"outBytes,omitempty"` // bytes every attempt prints to stdout (0 = silent)
 	Bound     int               `json:"bound"`
 }
 
@@ -83,6 +89,9 @@ func (c *Config) String() string {
 		if s.Repeat {
 			at = append(at, fmt.Sprintf("repeat/%dms", s.RepeatMs))
 		}
+		if s.SigOnStop != "" {
+			at = append(at, "signalOnStop="+s.SigOnStop)
+		}
 		if len(at) > 0 {
 			fmt.Fprintf(&sb, "{%s}", strings.Join(at, ","))
 		}
@@ -111,6 +120,18 @@ func (c *Config) String() string {
 	if c.DoneSync {
 		sb.WriteString("done=sync ")
 	}
+	if c.OutBytes > 0 {
+		fmt.Fprintf(&sb, "out=%dB ", c.OutBytes)
+	}
+	if c.Agent {
+		fmt.Fprintf(&sb, "agent(maxCleanUp=%dms) ", c.CleanupMs)
+	}
+	if c.SigTerm {
+		sb.WriteString("via-signal ")
+	}
+	if c.Recorded != nil {
+		fmt.Fprintf(&sb, "retry-of[%s] ", strings.Join(c.Recorded, ","))
+	}
 	if c.Stop {
 		sb.WriteString("stop ")
 	}
@@ -134,6 +155,7 @@ type NodeFinal struct {
 	RetryCount int    `json:"retryCount"`
 	DoneCount  int    `json:"doneCount"`
 	HasErr     bool   `json:"hasErr"`
+	Err        string `json:"err,omitempty"`
 	Started    bool   `json:"started"`
 	Finished   bool   `json:"finished"`
 	StartLEFin bool   `json:"startLEFinish"`
@@ -142,7 +164,8 @@ type NodeFinal struct {
 // Ev is a harness-level event interleaved with the executor events.
 type Ev struct {
 	vexec.Event
-	Thread int `json:"th"`
+	Thread   int  `json:"th"`
+	Canceled bool `json:"c,omitempty"` // the scheduler had accepted a stop when the event was emitted
 }
 
 // Exec is everything the oracles see of one execution.
@@ -210,7 +233,7 @@ func buildSteps(cfg *Config) ([]dag.Step, map[string]*vexec.Script) {
 		}
 		st.SignalOnStop = s.SigOnStop
 		steps = append(steps, st)
-		scripts[s.Name] = &vexec.Script{Fail: s.Fail, Hang: s.Hang, IgnoreTerm: s.IgnoreTerm}
+		scripts[s.Name] = &vexec.Script{Fail: s.Fail, Hang: s.Hang, IgnoreTerm: s.IgnoreTerm, OutBytes: cfg.OutBytes}
 	}
 	for h, beh := range cfg.Handlers {
 		sc := &vexec.Script{}
@@ -234,7 +257,7 @@ func final(n *scheduler.Node) NodeFinal {
 	d := n.Data()
 	st := d.State
 	return NodeFinal{Name: d.Step.Name, Status: st.Status.String(), RetryCount: st.RetryCount, DoneCount: st.DoneCount,
-		HasErr: st.Error != nil, Started: !st.StartedAt.IsZero(), Finished: !st.FinishedAt.IsZero(),
+		HasErr: st.Error != nil, Err: errStr(st.Error), Started: !st.StartedAt.IsZero(), Finished: !st.FinishedAt.IsZero(),
 		StartLEFin: st.StartedAt.IsZero() || st.FinishedAt.IsZero() || !st.StartedAt.After(st.FinishedAt)}
 }
 
@@ -252,7 +275,14 @@ func (r *runner) once(cfg *Config, prefix []int, trace func(string)) (*Exec, *re
 	ch := &recChooser{prefix: prefix, keepDesc: trace != nil}
 	vexec.ClockMsHook = func() int64 { return vrt.Clock().Milliseconds() }
 	world := vexec.NewWorld(scripts)
-	world.OnEvent = func(e vexec.Event) { x.Events = append(x.Events, Ev{Event: e, Thread: vrt.CurID()}) }
+	var scRef **scheduler.Scheduler
+	world.OnEvent = func(e vexec.Event) {
+		c := false
+		if scRef != nil && *scRef != nil {
+			c = (*scRef).VerifCanceled()
+		}
+		x.Events = append(x.Events, Ev{Event: e, Thread: vrt.CurID(), Canceled: c})
+	}
 	vexec.WaitHook = func(step string, cond func() bool) { vrt.Point(vrt.KWait, step, cond, true) }
 	vexec.YieldHook = func(what string) { vrt.Point(vrt.KYield, what, nil, false) }
 	vrt.ResetChans()
@@ -261,9 +291,64 @@ func (r *runner) once(cfg *Config, prefix []int, trace func(string)) (*Exec, *re
 	}
 	var g *scheduler.ExecutionGraph
 	var sc *scheduler.Scheduler
+	scRef = &sc
 	body := func() {
 		var err error
-		g, err = scheduler.NewExecutionGraph(venv.Quiet, steps...)
+		if cfg.Agent {
+			env := venv.New(r.logDir + "-agent")
+			d := env.DAG("prog", steps...)
+			d.MaxActiveRuns = cfg.MaxActive
+			d.Timeout = time.Duration(cfg.TimeoutMs) * time.Millisecond
+			d.Delay = time.Duration(cfg.DelayMs) * time.Millisecond
+			d.MaxCleanUpTime = time.Duration(cfg.CleanupMs) * time.Millisecond
+			d.HandlerOn = dag.HandlerOn{Exit: handlerStep(cfg, "onExit"), Success: handlerStep(cfg, "onSuccess"), Failure: handlerStep(cfg, "onFailure"), Cancel: handlerStep(cfg, "onCancel")}
+			a := env.Agent("req", d, &agent.Options{})
+			if err = a.VerifSetup(); err != nil {
+				x.Err = "setup: " + err.Error()
+				return
+			}
+			g, sc = a.VerifGraph(), a.VerifScheduler()
+			done := make(chan *scheduler.Node, 8192)
+			if cfg.DoneSync {
+				done = make(chan *scheduler.Node)
+				vrt.Go(func() { // the agent's status writer
+					for {
+						n, ok := vrt.Recv2(done)
+						if !ok {
+							return
+						}
+						x.Events = append(x.Events, Ev{Event: vexec.Event{Kind: "done", Step: n.Data().Step.Name, T: vrt.Clock().Milliseconds()}, Thread: vrt.CurID()})
+					}
+				})
+			}
+			if cfg.Stop {
+				vrt.Go(func() {
+					vrt.Point(vrt.KWait, "stop-request", nil, true)
+					x.StopAt = len(x.Events)
+					x.Events = append(x.Events, Ev{Event: vexec.Event{Kind: "stop", T: vrt.Clock().Milliseconds()}, Thread: vrt.CurID()})
+					if cfg.SigTerm {
+						a.Signal(syscall.SIGTERM)
+					} else {
+						a.VerifStop()
+					}
+					x.Events = append(x.Events, Ev{Event: vexec.Event{Kind: "stop-returned", T: vrt.Clock().Milliseconds()}, Thread: vrt.CurID()})
+				})
+			}
+			err = a.VerifSchedule(context.Background(), done)
+			x.Returned = true
+			if err != nil {
+				x.Err = err.Error()
+			}
+			x.Status = sc.Status(g).String()
+			x.Events = append(x.Events, Ev{Event: vexec.Event{Kind: "returned", T: vrt.Clock().Milliseconds()}, Thread: vrt.CurID()})
+			vrt.Close(done)
+			return
+		}
+		if cfg.Recorded != nil {
+			g, err = retryGraph(steps, cfg.Recorded)
+		} else {
+			g, err = scheduler.NewExecutionGraph(venv.Quiet, steps...)
+		}
 		if err != nil {
 			x.Err = "graph: " + err.Error()
 			return
@@ -347,6 +432,22 @@ func (r *runner) once(cfg *Config, prefix []int, trace func(string)) (*Exec, *re
 		}
 	}
 	return x, ch
+}
+
+func errStr(e error) string {
+	if e == nil {
+		return ""
+	}
+	return e.Error()
+}
+
+// failCause classifies why a node ended failed although its last attempt succeeded.
+func (x *Exec) failCause(name string) string {
+	f := x.finalOf(name)
+	if f != nil && strings.Contains(f.Err, "file already closed") {
+		return "teardown-on-closed-file"
+	}
+	return "other"
 }
 
 func lastEv(ev []Ev) string {
